@@ -6,7 +6,7 @@ use crate::rng::Rng;
 use crate::term::*;
 
 /// (source text, expected message, expected error code, expected first line of the trace)
-pub const SOURCES: [(&str, &str, &str, &str); 26] = [
+pub const SOURCES: [(&str, &str, &str, &str); 27] = [
     ("error boom", "boom", "NONE", "boom"),
     ("error {two words}", "two words", "NONE", "two words"),
     ("throw MYCODE thrown", "thrown", "MYCODE", "thrown"),
@@ -33,9 +33,11 @@ pub const SOURCES: [(&str, &str, &str, &str); 26] = [
     ("error \"\\nsecond\"", "\nsecond", "NONE", ""),
     ("set x \"abc", "missing \"", "NONE", "missing \""),
     ("rec [rec a", "missing close-bracket", "NONE", "missing close-bracket"),
+    // caught and re-raised with its options where a LOCAL variable is called errorInfo
+    ("rcel", "lmsg", "LCODE", "lmsg"),
 ];
 
-pub const PRELUDE: &str = "proc pa2 {a b} {}; set nonint abc; proc rce {} {return -code error rmsg}; proc rcei {} {return -code error -errorcode ECODE -errorinfo {given info} imsg}; proc rcec {} {return -code error -errorcode ONLYCODE cmsg}; proc rceo {} {return -errorcode OCODE -code error omsg}; proc rceb {} {return -code error}";
+pub const PRELUDE: &str = "proc pa2 {a b} {}; set nonint abc; proc rce {} {return -code error rmsg}; proc rcei {} {return -code error -errorcode ECODE -errorinfo {given info} imsg}; proc rcec {} {return -code error -errorcode ONLYCODE cmsg}; proc rceo {} {return -errorcode OCODE -code error omsg}; proc rceb {} {return -code error}; proc rcel {} {set errorInfo mine; set errorCode mine; catch {throw LCODE lmsg} lr lo; return -code error -errorcode [dict get $lo -errorcode] -errorinfo [dict get $lo -errorinfo] $lr}";
 
 const FRAMES: [&str; 5] = ["proc", "if", "foreach", "while", "rproc"];
 
@@ -86,7 +88,7 @@ pub fn gen(tier: &str, seed: u64) -> Gen {
                     continue;
                 }
                 let (_, m, c, f) = SOURCES[src];
-                cases.push(tl(vec![ts(v), tl(vec![ts(m), ts(c), ts(f), tb(src == 11)]), tstrs(s), ts(&failing(src, s))]));
+                cases.push(tl(vec![ts(v), tl(vec![ts(m), ts(c), ts(f), tb(src == 11 || src == 26)]), tstrs(s), ts(&failing(src, s))]));
                 n += 1;
             }
         }
@@ -98,13 +100,13 @@ pub fn gen(tier: &str, seed: u64) -> Gen {
         for src in &[0usize, 2, 4, 11] {
             for v in &["host", "catch", "rethrow"] {
                 let (_, m, c, f) = SOURCES[*src];
-                cases.push(tl(vec![ts(v), tl(vec![ts(m), ts(c), ts(f), tb(*src == 11)]), tstrs(&frames), ts(&failing(*src, &frames))]));
+                cases.push(tl(vec![ts(v), tl(vec![ts(m), ts(c), ts(f), tb(*src == 11 || *src == 26)]), tstrs(&frames), ts(&failing(*src, &frames))]));
                 nd += 1;
             }
         }
     }
     let n = n + nd;
-    (cases, vec![(format!("26 error sources (incl. empty messages and bodies that do not parse) x every stack of proc/if/foreach/while/self-removing-proc frames of depth<={} x 7 observation variants (host, catch, catch after an earlier error, rethrow x3, quiet); plus chains of 70, 100 and 150 procedures", maxdepth), n, thorough)])
+    (cases, vec![(format!("27 error sources (incl. empty messages and bodies that do not parse) x every stack of proc/if/foreach/while/self-removing-proc frames of depth<={} x 7 observation variants (host, catch, catch after an earlier error, rethrow x3, quiet); plus chains of 70, 100 and 150 procedures", maxdepth), n, thorough)])
 }
 
 fn host_obs(interp: &mut molt::Interp, script: &str) -> Term {
